@@ -1,6 +1,7 @@
 import FGVerif.Driver.Shared
 import FGVerif.Model.Subgraph
 import FGVerif.Model.C03Spec
+import FGVerif.Model.C04Opt
 /-!
   driver operations for C03 / C04 (one implementation, `C04.handle` calls `handleFor .c04`).
 
@@ -27,8 +28,14 @@ import FGVerif.Model.C03Spec
                                         (un-anchored: flag true although no anchor pair embeds)
             c04_false_negative_acyclic  host and pattern acyclic, flag false, embedding exists
             c04_pair_not_admitted       flag true, anchor pair missing or a returned pair whose symbols
-                                        the mapper does not admit (judged for every mapper; with
-                                        can_map_to_nothing it is the only C04 clause judged)
+                                        the mapper does not admit (judged for every mapper)
+            with can_map_to_nothing ≠ [] (pattern nodes may stay without a partner by design):
+            c04_not_embedding           flag true, the returned pairs are not a PARTIAL embedding
+                                        (`C04Opt.partialOk`: anchor pair, existing nodes, admitted symbols,
+                                        function to distinct host nodes, every pattern bond between two
+                                        mapped nodes on a host bond of equal order)
+            c04_required_node_unmapped  flag true, a pattern node whose symbol may NOT map to nothing has
+                                        no partner (`C04Opt.requiredOk`; known finding K12)
             raised                      the implementation raised
   `spec_*` is the conjunction of the clauses that belong to the property asked:
   C03: c03_missed, raised;  C04: c04_not_embedding, c04_false_negative_acyclic, raised.
@@ -49,17 +56,20 @@ structure Clauses where
   /-- flag true, but the anchor pair is missing or some returned pair is not admitted by the
       mapper's single-symbol rule (evaluated for every mapper, also with can_map_to_nothing) -/
   pairNotAdmitted : Bool := false
-  /-- the mapper has can_map_to_nothing symbols: pattern nodes may stay unmapped by design, so only
-      `pairNotAdmitted` and `raised` are judged -/
+  /-- the mapper has can_map_to_nothing symbols: pattern nodes may stay unmapped by design, so
+      `notEmbedding` means "not a partial embedding" and `requiredUnmapped` is judged; the oracle clauses
+      (`missed`, `falseNegAcyclic`) are not (the oracle does not know optional nodes) -/
   cmtn : Bool := false
   /-- `map_subgraph`: the result list has not the promised number of entries -/
   shape : Bool := false
+  /-- can_map_to_nothing: flag true and a pattern node that is not optional has no partner -/
+  requiredUnmapped : Bool := false
 
 def Clauses.or (c d : Clauses) : Clauses :=
   { missed := c.missed || d.missed, notEmbedding := c.notEmbedding || d.notEmbedding,
     falseNegAcyclic := c.falseNegAcyclic || d.falseNegAcyclic, raised := c.raised || d.raised,
     pairNotAdmitted := c.pairNotAdmitted || d.pairNotAdmitted, cmtn := c.cmtn || d.cmtn,
-    shape := c.shape || d.shape }
+    shape := c.shape || d.shape, requiredUnmapped := c.requiredUnmapped || d.requiredUnmapped }
 
 def Clauses.names (c : Clauses) : List SExp :=
   (if c.missed then [SExp.atom "c03_missed"] else []) ++
@@ -67,18 +77,21 @@ def Clauses.names (c : Clauses) : List SExp :=
   (if c.falseNegAcyclic then [SExp.atom "c04_false_negative_acyclic"] else []) ++
   (if c.raised then [SExp.atom "raised"] else []) ++
   (if c.pairNotAdmitted then [SExp.atom "c04_pair_not_admitted"] else []) ++
-  (if c.shape then [SExp.atom "c04_result_shape"] else [])
+  (if c.shape then [SExp.atom "c04_result_shape"] else []) ++
+  (if c.requiredUnmapped then [SExp.atom "c04_required_node_unmapped"] else [])
 
 def Clauses.holds (c : Clauses) : Which → Bool
   | .c03 => !c.missed && !c.raised
-  | .c04 => if c.cmtn then !c.pairNotAdmitted && !c.raised && !c.shape
+  | .c04 => if c.cmtn then !c.pairNotAdmitted && !c.raised && !c.shape && !c.notEmbedding && !c.requiredUnmapped
             else !c.notEmbedding && !c.falseNegAcyclic && !c.raised && !c.pairNotAdmitted && !c.shape
 
 /-- the three clauses for an anchored answer -/
 def judgeAnchored (m : Mapper) (g : Graph) (a : Int) (p : Graph) (pa : Int) (ex acyclic : Bool)
     (flag : Bool) (pairs : List (Int × Int)) : Clauses :=
+  let cmtn := !m.canMapToNothing.isEmpty
   { missed := ex && !flag
-    notEmbedding := flag && !isEmbedding m p g pa a pairs
+    notEmbedding := flag && !(if cmtn then C04Opt.partialOk m p g pa a pairs else isEmbedding m p g pa a pairs)
+    requiredUnmapped := cmtn && flag && !C04Opt.requiredOk m p pairs
     falseNegAcyclic := acyclic && !flag && ex
     pairNotAdmitted := flag && !(pairs.contains (a, pa) &&
       pairs.all fun x => admits m ((p.symbol? x.2).getD "") ((g.symbol? x.1).getD ""))
